@@ -67,6 +67,17 @@ open_('F13', 'C09', 'level_after_change_optional', 'C09/buf:1/level_after_change
       'an optional task that is not scheduled still loads / unloads its buffers (at its point in the past -task_number): '
       'levels [5, 2, 3] although the unloading task is not scheduled [F13]', pin={'T1_scheduled': False})
 
+F.append(dict(id='F26', property='C11', status='open', clause_kind='views_disagree_early_out',
+              witness=dict(program_pretty=['FixedDurationTask T(duration=2) at 0', 'T.add_required_resource(W, early_out=5)'],
+                           observed="solution.tasks['T'].assigned_resources == ['W'] while solution.resources['W'].assignments == []"),
+              text='a static requirement whose early_out exceeds the task end gives the worker a busy interval with a negative end: '
+                   'the resource report drops it while the task still lists the worker [F26]'))
+F.append(dict(id='F04', property='C11', status='open', clause_kind='views_disagree_cumulative_in_select',
+              witness=dict(program_pretty=['SelectWorkers([CumulativeWorker(size=2), W])', 'three tasks requiring the selection'],
+                           observed="tasks list the cumulative worker, solution.resources has no (or an empty) report for it"),
+              text='a CumulativeWorker listed inside a SelectWorkers gets its busy interval on the wrapper object, which build_solution '
+                   '(and initialize) never visit: tasks list it, no resource report mentions them [F04]'))
+
 F.append(dict(id='F22', property='C13', status='open', clause_kind='reinit-multiobjective',
               witness=dict(case='corpus/C13/F22.json'),
               text="initialize() a second time (or a second SchedulingSolver) on a problem with two objectives raises ValueError: build_equivalent_weighted_objective registers 'EquivalentIndicator' / 'MinimizeEquivalentObjective' in the problem itself [F22]"))
@@ -85,5 +96,6 @@ fixed('F20', 'C12', '2f459fe', 'solve(); find_another_solution() with an optiona
 fixed('F21', 'C13', '6c71f70', 'ObjectiveMinimizeMakespan: solve(); solve() -> second returns False (pushed bounds never popped)')
 fixed('F24', 'C16', '366875c', "SchedulingSolver(optimizer='optimize').export_to_smt2 raised AttributeError: to_smt2")
 fixed('F39', 'C08', 'c9f7563', 'IndicatorEarliness counted due - (-k) for an unscheduled optional task')
+fixed('F40', 'C11', 'c7ed2c8', 'an unscheduled optional task with delay_in >= its task number was reported with the worker among its assigned resources')
 json.dump({'findings': F}, open('/verif/known_findings.json', 'w'), indent=1)
 print(len(F), 'findings written')
